@@ -247,7 +247,7 @@ def helper_forms(ctx: core.Ctx):
             ctx.find("NIS-FORM", rel, "removeInnovation", "helper does not type-check",
                      "removeInnovation<3> does not type-check against dimension-typed matrices: " + (r.stderr.strip().splitlines() or ["?"])[0][-200:])
             return None
-        docs = cppast.ast_json(tu, inc, "removeInnovation")
+        docs = cppast.ast_json(tu, inc, "innovation_filtering")      # the whole namespace: removeInnovation and the helpers it may call
     finally:
         shutil.rmtree(td, ignore_errors=True)
     fns = _find_fn(docs, lambda n: n.get("kind") == "FunctionDecl" and n.get("name") == "removeInnovation"
@@ -262,6 +262,37 @@ def helper_forms(ctx: core.Ctx):
     tpar = next((c.get("name") for d in docs for c in cppast.kids(d) if c.get("kind") == "NonTypeTemplateParmDecl"), "reading_size")
     kname, yname, sname = params[0][0], params[1][0], params[2][0]
     env: Dict[str, Any] = {}
+    # free helper functions of the header (instantiated templates or plain functions): a call is replaced by the helper's returned
+    # expression with its parameters substituted (straight-line helpers: local declarations, one return)
+    helpers: Dict[str, Any] = {}
+    for hf in _find_fn(docs, lambda n: n.get("kind") == "FunctionDecl" and n.get("name") != "removeInnovation"):
+        hb = cppast.body_of(hf)
+        if hb is not None:
+            inst = any(c.get("kind") == "TemplateArgument" for c in cppast.kids(hf))
+            lst = helpers.setdefault(hf.get("name"), [])
+            lst.insert(0, (cppast.params_of(hf), hb)) if inst else lst.append((cppast.params_of(hf), hb))     # instantiations first
+
+    def unfold(e, depth=0):
+        """the expression a call of a helper stands for, or None"""
+        from .rtmodel import _subst_ir
+        if depth > 4 or e[0] != "call" or not isinstance(e[1], str) or e[1].split("::")[-1] not in helpers:
+            return None
+        cands = [h for h in helpers[e[1].split("::")[-1]] if len(h[0]) == len(e[2])]
+        if not cands:
+            return None
+        hp, hb = cands[0]
+        m = {pn: a for (pn, _), a in zip(hp, e[2])}
+        out = None
+        for st in hb:
+            if st[0] == "decl" and st[2] is not None:
+                m[st[1]] = _subst_ir(st[2], m)
+            elif st[0] == "return" and st[1] is not None and st is hb[-1]:
+                out = _subst_ir(st[1], m)
+            elif st[0] == "static_assert":
+                continue
+            else:
+                return None
+        return out
 
     def mat(e):
         k = e[0]
@@ -282,10 +313,16 @@ def helper_forms(ctx: core.Ctx):
             return v.T() if v is not None else None
         if k == "mcall" and e[2] == "()" and len(e[3]) in (1, 2):
             return mat(e[1])
+        if k == "call":
+            u = unfold(e)
+            return mat(u) if u is not None else None
         return None
 
     def sca(e):
         k = e[0]
+        if k == "call" and e[1] != "sqrt":
+            u = unfold(e)
+            return sca(u) if u is not None else None
         if k == "num":
             try:
                 from fractions import Fraction
